@@ -48,7 +48,9 @@ const (
 )
 
 // swapAA is the credential store handed to the nodes; the real store behind it is replaced per case.
-type swapAA struct{ p atomic.Pointer[auth.CredentialsStore] }
+type swapAA struct {
+	p atomic.Pointer[auth.CredentialsStore]
+}
 
 func (s *swapAA) AA(u, pw, perm string) bool { return s.p.Load().AA(u, pw, perm) }
 
@@ -766,7 +768,7 @@ func permOpenStore() *auth.CredentialsStore {
 
 func (e *permEnv) runCase(c *permCase) (*permObs, error) {
 	o := &permObs{ID: c.ID, F: c.F, Role: c.Role, Pres: c.Pres, Auth: c.Auth, Changed: []string{}}
-	if c.F == "http:POST:/db/execute?queue" && c.Auth && c.Role == "follower" {
+	if c.F == "http:POST:/db/execute?queue" && c.Auth && c.Role == "follower" && os.Getenv("VERIF_PERM_QUEUE_ON_FOLLOWER") == "" {
 		// a follower forwards queued writes without credentials and retries for ever: the node's queue
 		// would stay blocked for the rest of the run (nothing C18 forbids; see notes/C18.md)
 		o.Skipped = "queued write on a follower is forwarded without credentials"
